@@ -229,6 +229,7 @@ class VInterp(sym.Interp):
         return None
 
     def assign(self, lhs, val, node):
+        lhs = self.through_ref(lhs)          # `*r = …` with `let r = &mut place`: the place
         l = lhs
         # explicit deref of a reference cell
         while l.get("k") == "Ref":
